@@ -237,6 +237,8 @@ func magnitudes(orig, rest uint64, width int) []mag {
 		{"8", 8}, {"9", 9}, {"24", 24}, {"25", 25}, {"2^31-1", 1<<31 - 1}, {"2^31", 1 << 31}}
 	if width >= 4 {
 		ms = append(ms, mag{"2^32-9", 1<<32 - 9}, mag{"2^32-1", 1<<32 - 1})
+		// between the configurable limits (1 MiB in the lex-limits entry point) and the 2 GiB ceiling
+		ms = append(ms, mag{"2^20+1", 1<<20 + 1}, mag{"2^27", 1 << 27})
 	}
 	if width == 8 {
 		ms = append(ms, mag{"2^32", 1 << 32}, mag{"2^40", 1 << 40}, mag{"2^63-1", 1<<63 - 1}, mag{"2^63", 1 << 63}, mag{"2^64-9", ^uint64(0) - 8}, mag{"2^64-1", ^uint64(0)})
